@@ -459,10 +459,14 @@ def reset_rule(chk, prog, roles, rule="RESET"):
 
 
 class PassThroughDomain:
-    """has a call passing `var` to one of `targets` happened on this path?"""
+    """has a call passing `var` to one of `targets` happened on this path?  A static helper that receives `var` counts as such a
+    call when, interpreted with the constant arguments of this call site, every non-failing return of the helper has passed it on."""
 
-    def __init__(self, prog, var, targets):
+    def __init__(self, prog, var, targets, consts=None, depth=0):
         self.prog, self.var, self.targets = prog, var, targets
+        self.consts = dict(consts or {})
+        self.ce = ConstEval(prog, self.consts)
+        self.depth = depth
         self.rets = []
 
     def copy(self, s): return s
@@ -475,14 +479,55 @@ class PassThroughDomain:
             s = self.eval(c, s)
         return s
 
+    def _helper_passes(self, call):
+        cn = callee_name(call)
+        lib = self.prog.lib_functions()
+        if cn not in lib or self.depth > 3 or lib[cn].get("storageClass") != "static":
+            return False
+        ps = self.prog.params(lib[cn])
+        args = call_args(call)
+        idx = [i for i, a in enumerate(args) if ref_name(strip(a, casts=True)) == self.var]
+        if len(idx) != 1 or len(ps) != len(args):
+            return False
+        consts = {}
+        for p, a in zip(ps, args):
+            v = self.ce.try_eval(strip(a, casts=True))
+            if v is not None:
+                consts[p["name"]] = v
+        sub = PassThroughDomain(self.prog, ps[idx[0]]["name"], self.targets, consts, self.depth + 1)
+        end = Flow(sub).function(self.prog, lib[cn], False)
+        rets = [(r, st) for r, st in sub.rets] + ([(None, end)] if end is not None else [])
+        for r, st in rets:
+            v = sub.ce.try_eval(strip(kids(r)[0], casts=True)) if (r is not None and kids(r)) else None
+            if not st and v in (0, None):
+                return False
+        return bool(rets)
+
     def eval(self, e, s):
-        for m in walk(strip(e) or {}):
-            if m.get("kind") == "CallExpr" and callee_name(m) in self.targets:
-                if any(ref_name(a) == self.var for a in call_args(m)):
-                    s = True
+        e0 = strip(e)
+        if not e0:
+            return s
+        k = e0.get("kind")
+        if k == "ConditionalOperator":
+            c = self.ce.try_eval(strip(kids(e0)[0]))
+            s = self.eval(kids(e0)[0], s)
+            if c is not None:
+                return self.eval(kids(e0)[1] if c else kids(e0)[2], s)
+            return self.eval(kids(e0)[1], s) and self.eval(kids(e0)[2], s)
+        for c in kids(e0):
+            s = self.eval(c, s)
+        if k == "CallExpr":
+            if callee_name(e0) in self.targets and any(ref_name(strip(a, casts=True)) == self.var for a in call_args(e0)):
+                s = True
+            elif any(ref_name(strip(a, casts=True)) == self.var for a in call_args(e0)) and self._helper_passes(e0):
+                s = True
         return s
 
-    def assume(self, e, t, s): return s
+    def assume(self, e, t, s):
+        v = self.ce.try_eval(strip(e))
+        if v is not None and bool(v) != t:
+            return None
+        return s
 
     def ret(self, n, s):
         self.rets.append((n, s))
